@@ -521,50 +521,55 @@ def s5_stage_sequencing(prog):
         return r
     imp = imps[0]
     f = method(prog, imp, 'run')
-    body = f.body
     key = 'Stages::run for (T, U)'
-    st = [(b, t) for b, t in body.calls(lambda c: c.get('trait') == STAGE_T and c['name'] == 'run')]
-    nx = [(b, t) for b, t in body.calls(lambda c: c.get('trait') == STAGES_T and c['name'] == 'run')]
-    r.inst(key + ': stage.run=%d next.run=%d' % (len(st), len(nx)))
-    if len(st) != 1 or len(nx) != 1:
-        r.viol('S5', key + '/shape', f.loc(), 'expected one Stage::run followed by one Stages::run of the tail')
-        return r
-    (sb, stt), (nb, nt) = st[0], nx[0]
-    if not body.dominates(sb, nb):
-        r.viol('S5', key + '/order', f.loc(nt['ln']), 'next stages may start before the current stage finished')
-    a = nt['args'][2] if len(nt['args']) > 2 else None
-    src = access_of_local(body, op_local(a)) if a is not None and op_local(a) is not None else None
-    if src is None or src.root != stt['dest']['l']:
-        r.viol('S5', key + '/has-run-not-forwarded', f.loc(nt['ln']), 'the next stage does not receive the flags of tasks already started as add-ons (they would run twice)')
-    # has_run passed to the stage is this call's own parameter
-    hr = receiver_name(prog, body, stt['args'][4]) if len(stt['args']) > 4 else None
-    if hr != 'has_run':
-        r.viol('S5', key + '/stage-has-run', f.loc(stt['ln']), 'the stage must receive the has_run flags handed to Stages::run (got %s)' % hr)
-    for b, t in body.calls(is_join):
-        r.viol('S5', key + '/stages-forked', f.loc(t['ln']), 'stages are forked: they must run strictly one after another')
-    # the stage starts with an empty claim map and empty resource claims
-    # World::run_schedule
+    E = pathsem.analyse(prog, f)
+    rets = [p for p in E.paths if p.ended == 'return']
+    S = pathsem.strip_refs
+    rep = set()
+
+    def once(k, ln, msg, fn=f):
+        if k not in rep:
+            rep.add(k)
+            r.viol('S5', k, fn.loc(ln), msg)
+    if E.truncated or not rets:
+        once(key + '/shape', None, 'Stages::run not analysable')
+    hr = ('p', f.body.arg_local('has_run'), 'has_run') if f.body.arg_local('has_run') else None
+    for p in rets:
+        st = p.calls(lambda e: e['f'].get('trait') == STAGE_T and e['name'] == 'run')
+        nx = p.calls(lambda e: e['f'].get('trait') == STAGES_T and e['name'] == 'run')
+        if len(st) != 1 or len(nx) != 1:
+            once(key + '/shape', None, 'expected one Stage::run followed by one Stages::run of the tail on every path (found %d / %d)' % (len(st), len(nx)))
+            continue
+        if not st[0]['i'] < nx[0]['i']:
+            once(key + '/order', nx[0]['ln'], 'next stages may start before the current stage finished')
+        if len(nx[0]['vals']) < 3 or S(nx[0]['vals'][2]) != st[0]['ret']:
+            once(key + '/has-run-not-forwarded', nx[0]['ln'], 'the next stage does not receive the flags of tasks already started as add-ons (they would run twice)')
+        if len(st[0]['vals']) < 5 or S(st[0]['vals'][4]) != hr:
+            once(key + '/stage-has-run', st[0]['ln'], 'the stage must receive the has_run flags handed to Stages::run (got %s)' % (pathsem.tstr(st[0]['vals'][4]) if len(st[0]['vals']) > 4 else None))
+        for e in p.calls(ev_is_join):
+            once(key + '/stages-forked', e['ln'], 'stages are forked: they must run strictly one after another')
+        # the stage starts with an empty claim map and empty resource claims
+        for i_, what in ((2, 'claim map'), (3, 'resource claims')):
+            v = S(st[0]['vals'][i_]) if len(st[0]['vals']) > i_ else None
+            if not (isinstance(v, tuple) and v[0] == 'call' and v[1].rsplit('::', 1)[-1] in ('default', 'new', 'with_hasher', 'with_capacity_and_hasher') and not v[2]):
+                once(key + '/stage-starts-with-claims', st[0]['ln'], 'a stage must start from an empty %s (got %s)' % (what, pathsem.tstr(v)))
+    r.inst(key + ': stage.run then next.run on %d path(s)' % len(rets))
     rs = [g for g in prog.fns.values() if g.path == 'world::World::<Registry, Resources>::run_schedule']
     if len(rs) != 1:
         r.viol('S5', 'missing-run_schedule', '-', 'World::run_schedule not found')
         return r
     g = rs[0]
-    gb = g.body
     r.inst('World::run_schedule')
-    runs = [(b, t) for b, t in gb.calls(lambda c: c.get('trait') == STAGES_T and c['name'] == 'run')]
-    if len(runs) != 1:
-        r.viol('S5', 'run_schedule/shape', g.loc(), 'run_schedule must run the stages exactly once')
-    else:
-        b, t = runs[0]
-        a = t['args'][2] if len(t['args']) > 2 else None
-        l = op_local(a) if a is not None else None
-        d = single_def(gb, access_of_local(gb, l).root) if l is not None else None
-        if not (d and d[0] == 'call' and d[2]['f']['name'] == 'new_has_run'):
-            r.viol('S5', 'run_schedule/initial-flags', g.loc(t['ln']), 'run_schedule must start with fresh has_run flags (new_has_run())')
+    E = pathsem.analyse(prog, g)
+    for p in [p for p in E.paths if p.ended == 'return']:
+        runs = p.calls(lambda e: e['f'].get('trait') == STAGES_T and e['name'] == 'run')
+        if len(runs) != 1:
+            once('run_schedule/shape', None, 'run_schedule must run the stages exactly once', fn=g)
+            continue
+        v = S(runs[0]['vals'][2]) if len(runs[0]['vals']) > 2 else None
+        if not (isinstance(v, tuple) and v[0] == 'call' and v[1].endswith('::new_has_run')):
+            once('run_schedule/initial-flags', runs[0]['ln'], 'run_schedule must start with fresh has_run flags (new_has_run())', fn=g)
     return r
-
-
-BLOCKING = ('std::sync::', 'std::thread::', 'core::hint::spin_loop', 'std::sync::mpsc', 'parking_lot', 'core::sync::atomic', 'crossbeam', 'rayon::scope', 'rayon::spawn', 'rayon_core::scope', 'rayon_core::spawn', 'std::panic::catch_unwind', 'rayon_core::ThreadPool')
 
 
 @rule('S7', props=['C12', 'C17'], floor=700, configs=('all',))
